@@ -411,6 +411,43 @@ static void op_copyud(const char *bitshex, const char *texthex)
 	printf("copyud rc=%d equal=%d independent=%d\n", rc, equal, indep);
 }
 
+static void op_copyfmt(const char *bitshex, const char *fmthex, const char *nested)
+{
+	/* a double printed through the library's own json_object_double_to_json_string with a format string the node owns
+	 * (userdata + json_object_free_userdata), alone or inside an array, deep-copied with the default shallow copy: either the
+	 * copy is refused (-1, nothing produced) or it shares nothing - destroying the source leaves the copy printing as before */
+	uint64_t bits = strtoull(bitshex, NULL, 16);
+	double d;
+	memcpy(&d, &bits, 8);
+	char *fmt = unhexz(fmthex, NULL);
+	struct json_object *node = json_object_new_double(d), *src = node, *cpy = NULL;
+	json_object_set_serializer(node, json_object_double_to_json_string, fmt, json_object_free_userdata);
+	if (nested[0] == '1')
+	{
+		src = json_object_new_array();
+		json_object_array_add(src, json_object_new_int(1));
+		json_object_array_add(src, node);
+	}
+	int rc = json_object_deep_copy(src, &cpy, NULL);
+	int good;
+	if (rc != 0)
+		good = (cpy == NULL);
+	else
+	{
+		char *before = strdup(json_object_to_json_string(cpy));
+		good = !strcmp(before, json_object_to_json_string(src));
+		json_object_put(src);
+		src = NULL;
+		good = good && !strcmp(before, json_object_to_json_string(cpy));
+		free(before);
+	}
+	if (src)
+		json_object_put(src);
+	if (cpy)
+		json_object_put(cpy);
+	printf("copyfmt %s\n", good ? "refused-or-disjoint" : "BAD");
+}
+
 static void op_copymut(int nw, char **w)
 {
 	/* copymut <T> <repr> <side> <destroy> <path> <mutation...> */
@@ -614,6 +651,8 @@ int main(void)
 			op_copybad(W[1], W[2]);
 		else if (!strcmp(W[0], "copyud") && NW == 3)
 			op_copyud(W[1], W[2]);
+		else if (!strcmp(W[0], "copyfmt") && NW == 4)
+			op_copyfmt(W[1], W[2], W[3]);
 		else if (!strcmp(W[0], "copymut") && NW >= 7)
 			op_copymut(NW, W);
 		else
